@@ -156,7 +156,7 @@ func c19PipeModel(x *runCtx, r *rand.Rand) {
 		}()
 		res := map[string]bool{}
 		hung := false
-		timeout := time.After(20 * time.Second)
+		timeout := time.After(90 * time.Second)
 		for len(res) < 2 && !hung {
 			select {
 			case s := <-done:
@@ -217,7 +217,7 @@ func c19FreshStore(x *runCtx, r *rand.Rand) {
 				}()
 				k := lab.Kinds[i%2] // the two EC kinds: no RSA key generation in the way of the stampede
 				<-start
-				ctx, cancel := context.WithTimeout(context.Background(), 60*time.Second)
+				ctx, cancel := context.WithTimeout(context.Background(), 180*time.Second)
 				defer cancel()
 				if _, err := cw.w.NewDevice(ctx, k, protocol.X509KeyEnc, fmt.Sprintf("dev%d", 1+i%2), nil); err != nil {
 					errs[i] = err.Error()
